@@ -9,7 +9,7 @@ Idle == pend = {}
 MInit == Init /\ hist = <<>> /\ pend = {} /\ who = CHOOSE r \in Replica : TRUE
 MNext ==
   \/ /\ Len(hist) < Depth /\ Idle
-     /\ \/ \E r \in Replica : nver < MaxVer /\ NewIdent(r) /\ Log([act |-> "NewIdent", r |-> r, i |-> 0]) /\ UNCHANGED <<pend, who>>
+     /\ \/ \E r \in Replica : nver < MaxVer /\ NewIdent(r, 1) /\ Log([act |-> "NewIdent", r |-> r, i |-> 0]) /\ UNCHANGED <<pend, who>>
         \/ \E r \in Replica, i \in Idents : nver < MaxVer /\ Mutate(r, i) /\ Log([act |-> "Mutate", r |-> r, i |-> i]) /\ UNCHANGED <<pend, who>>
         \/ \E r \in Replica : (\E i \in Idents : chain[r][i] # <<>> /\ chain[r][i] # hchain[i]) /\ Push(r) /\ Log([act |-> "Push", r |-> r, i |-> 0]) /\ UNCHANGED <<pend, who>>
         \/ \E r \in Replica : (\E i \in Idents : hchain[i] # <<>> /\ tchain[r][i] # hchain[i]) /\ Fetch(r) /\ Log([act |-> "Fetch", r |-> r, i |-> 0]) /\ UNCHANGED <<pend, who>>
